@@ -327,7 +327,7 @@ pub fn c12_input(data: &[u8]) -> Option<<c12::C12 as Prop>::Input> {
     if data.len() < 3 {
         return None;
     }
-    let pos = data[0] % 7;
+    let pos = data[0] % 8;
     let flen = 1 + (data[1] as usize % 12).min(data.len() - 3);
     let field = data[2..2 + flen.min(data.len() - 2)].to_vec();
     if field.is_empty() {
